@@ -261,7 +261,7 @@ func c16Apply(p pair, st c16Step) (msg string, bothPanicked bool) {
 	case "ModInverse":
 		fz, fm = func() { retZ = z.ModInverse(A(0), A(1)) }, func() { retM = m.ModInverse(B(0), B(1)) }
 	case "ExpMod":
-		// x^7 mod |y| (y may be zero => plain power); small fixed exponent keeps results bounded
+		// x^N mod |y| for N in {0,1,2,-1,7} (y may be zero => plain power); small fixed exponents keep results bounded
 		e7z, e7m := apd.NewBigInt(st.N), big.NewInt(st.N)
 		fz, fm = func() { retZ = z.Exp(A(0), e7z, A(1)) }, func() { retM = m.Exp(B(0), e7m, B(1)) }
 	case "Abs":
@@ -630,6 +630,13 @@ func c16Steps(idx []int, full bool) []c16Step {
 			for _, b := range argset {
 				st := c16Step{Op: op, Args: []c16Arg{a, b}}
 				if op == "ExpMod" {
+					// x^n mod |m| for the trivial, small and negative exponents (m = 0 => plain power, n <= 0 => 1;
+					// a negative n with a modulus is the power of the modular inverse, nil when there is none)
+					for _, n := range []int64{0, 1, 2, -1} {
+						sn := st
+						sn.N = n
+						out = append(out, sn)
+					}
 					st.N = 7
 				}
 				out = append(out, st)
